@@ -16,7 +16,7 @@ def fall(slot: dict, chobj, eom: bool) -> int:
     """The accounted fall time (public Pulse.fall_time), cached."""
     if eom and chobj.eom_config is None:
         eom = False
-    k = (slot["dig"], id(chobj), eom)
+    k = (slot["dig"], chobj, eom)  # (the channel itself, by value: id() of a freed object of an earlier case is reused)
     v = _FALL.get(k)
     if v is None:
         v = int(slot["pulse"].fall_time(chobj, in_eom_mode=eom))
